@@ -521,6 +521,8 @@ Section WithEnv.
       match r_state o3 with
       | Receiving =>
       let (o4, c4) := push_from_cache o3 c3 in
+      match r_state o4 with
+      | Receiving =>
       match r_oti o4 with
       | None =>
         (* cache(): refused once the counter has reached the limit, else counted and kept *)
@@ -533,6 +535,8 @@ Section WithEnv.
         | (ROk o5, c5) => (o5, c5)
         | (RErr o5, c5) => error o5 false c5
         end
+      end
+      | _ => (o4, c4)     (* completed or failed by the packets of the cache *)
       end
       | _ => (o3, c3)     (* the writer was refused or could not be opened *)
       end
